@@ -68,11 +68,13 @@ theorem incr_facts (A L S k Q : Nat) (hS : S < 8) (hA : A < 4096 * Q)
       = (if k = 0 then A else A / 2 ^ S * 2 ^ S + k * 2 ^ S) / 2 ^ S ∧
     2 ^ S % 4096 = 2 ^ S ∧
     (k : Int) * ((2 ^ S : Nat) : Int) < 4096 ∧
-    (k < L → (k : Int) * ((2 ^ S : Nat) : Int) + ((2 ^ S : Nat) : Int) < 4096) := by
+    (k < L → (k : Int) * ((2 ^ S : Nat) : Int) + ((2 ^ S : Nat) : Int) < 4096) ∧
+    (A % 2 ^ S = 0 → ((A : Int) + (k : Int) * ((2 ^ S : Nat) : Int)).toNat
+      = (if k = 0 then A else A / 2 ^ S * 2 ^ S + k * 2 ^ S)) := by
   rcases size_cases hS with rfl | rfl | rfl | rfl | rfl | rfl | rfl | rfl <;>
     simp only [Nat.reducePow] at hleg ⊢ <;>
-    (refine ⟨?_, ?_, ?_, ?_, ?_, ?_⟩) <;>
-    (first | trivial | omega | (split <;> omega))
+    (refine ⟨?_, ?_, ?_, ?_, ?_, ?_, ?_⟩) <;>
+    (first | trivial | omega | (split <;> omega) | (intro hal; split <;> omega))
 
 /-- WRAP: the closed-form offset — range, address at size granularity against A3.4.1, when the mask test fires,
     and the next offset. -/
@@ -82,7 +84,7 @@ def WrapFacts (A L S k Q : Nat) : Prop :=
     let off' : Int := if (A / 2 ^ S) % (L + 1) + (k + 1) < L + 1 then ((k + 1 : Nat) : Int) * NB
                       else ((k + 1 : Nat) : Int) * NB - ((L + 1 : Nat) : Int) * NB
     0 ≤ (A : Int) + off ∧ (A : Int) + off < ((4096 * Q : Nat) : Int) ∧
-    ((A : Int) + off).toNat / 2 ^ S = axiSpecAddr A L S BURST_WRAP k / 2 ^ S ∧
+    ((A : Int) + off).toNat = axiSpecAddr A L S BURST_WRAP k ∧
     2 ^ S % 4096 = 2 ^ S ∧ L * 2 ^ S % 4096 = L * 2 ^ S ∧
     -4096 < off ∧ off < 4096 ∧
     (k < L → ((((A : Int) + off).toNat / 2 ^ S) % (L + 1) = L → off - ((L * 2 ^ S : Nat) : Int) = off' ∧ -4096 ≤ off') ∧
